@@ -6,6 +6,7 @@ use opcua::verif::server::{evaluate_where_clause, like};
 use proptest::prelude::*;
 use serde::{Deserialize, Serialize};
 use std::cell::RefCell;
+use std::convert::TryFrom;
 
 thread_local! {
     static SPACE: RefCell<Option<AddressSpace>> = const { RefCell::new(None) };
@@ -209,6 +210,34 @@ fn is_boolish(e: &Expr) -> bool {
 
 /// flattens the tree into content filter elements; returns the operand that denotes `e`
 fn flatten(e: &Expr, out: &mut Vec<ContentFilterElement>) -> ExtensionObject {
+    // A sub-expression that occurs twice is emitted once and referenced twice ("there may be more than one path
+    // leading to another element", Part 4), so clauses are DAGs, not only trees.
+    thread_local! {
+        static MEMO: RefCell<std::collections::HashMap<String, u32>> = RefCell::new(std::collections::HashMap::new());
+    }
+    if out.is_empty() {
+        MEMO.with(|m| m.borrow_mut().clear());
+    }
+    let is_leaf = matches!(e, Expr::Num(..) | Expr::Str(_) | Expr::Bool(_) | Expr::Null);
+    let key = serde_json::to_string(e).unwrap_or_default();
+    if !is_leaf {
+        if let Some(idx) = MEMO.with(|m| m.borrow().get(&key).copied()) {
+            if (idx as usize) < out.len() {
+                return elem(idx);
+            }
+        }
+    }
+    let r = flatten_inner(e, out);
+    if !is_leaf {
+        // the element index is the one pushed first for this expression
+        if let Ok(Operand::ElementOperand(eo)) = Operand::try_from(&r) {
+            MEMO.with(|m| m.borrow_mut().insert(key, eo.index));
+        }
+    }
+    r
+}
+
+fn flatten_inner(e: &Expr, out: &mut Vec<ContentFilterElement>) -> ExtensionObject {
     fn push(out: &mut Vec<ContentFilterElement>, op: FilterOperator, build: impl FnOnce(&mut Vec<ContentFilterElement>) -> Vec<ExtensionObject>) -> ExtensionObject {
         let idx = out.len();
         out.push(ContentFilterElement { filter_operator: op, filter_operands: None });
@@ -260,6 +289,9 @@ fn boolish() -> impl Strategy<Value = Expr> {
             (inner.clone(), inner.clone()).prop_map(|(a, b)| Expr::And(Box::new(a), Box::new(b))),
             (inner.clone(), inner.clone()).prop_map(|(a, b)| Expr::Or(Box::new(a), Box::new(b))),
             inner.clone().prop_map(|a| Expr::Not(Box::new(a))),
+            // the same sub-expression on both sides: a shared element
+            (inner.clone(), any::<bool>()).prop_map(|(a, or)| if or { Expr::Or(Box::new(a.clone()), Box::new(a)) } else { Expr::And(Box::new(a.clone()), Box::new(a)) }),
+            (inner.clone(), inner.clone()).prop_map(|(a, b)| Expr::And(Box::new(Expr::Not(Box::new(a.clone()))), Box::new(Expr::Or(Box::new(b), Box::new(Expr::Not(Box::new(a))))))),
             inner.prop_map(|a| Expr::IsNull(Box::new(a))),
         ]
     })
